@@ -8,7 +8,7 @@
 From Coq Require Import List NArith ZArith.
 From Gemato Require Import Py.PyStr Py.PyPath Gen.Tables Model.Entry Model.Text Model.OpenPGP Model.Hash
   Model.FS Model.Verify Model.Loader Model.Update.
-From Gemato Require Import Proofs.Refresh Proofs.SaveFrame.
+From Gemato Require Import Exec.Oracles Proofs.Refresh Proofs.SaveFrame Proofs.RefreshVerify Proofs.RefreshIdem.
 Import ListNotations.
 Open Scope N_scope.
 
@@ -31,3 +31,31 @@ Theorem C03_vanished_is_error : forall (L : hashlib) w path e hashes dev lm,
   update_entry_for_path L w path e hashes dev lm = Err (XInvalidPath path s_exists).
 Proof. exact refresh_absent. Qed.
 Print Assumptions C03_vanished_is_error.
+
+(* what the update writes for a file verifies: for any streaming hash library, if update_entry_for_path returns
+   (size, checksums) then verify_path on the same file state with an entry carrying exactly these - whenever it
+   returns - returns success without differences *)
+Theorem C03_refresh_then_verify : forall (L : hashlib),
+  (forall s a b, hl_update L (hl_update L s a) b = hl_update L s (a ++ b)) ->
+  (forall s, hl_update L s [] = s) ->
+  forall w path t p a esize ecks hashes dev ch size' cks' b d,
+  update_entry_for_path L w path (EFile t p a esize ecks) (Some hashes) dev None = Ok (ch, size', cks') ->
+  verify_path L w path (Some (EFile t p a size' cks')) dev None = Ok (b, d) ->
+  b = true /\ d = [].
+Proof. exact refresh_then_verify. Qed.
+Print Assumptions C03_refresh_then_verify.
+
+(* the same for the table-backed library the correspondence harness runs (no premises left) *)
+Theorem C03_refresh_then_verify_exec : forall tb w path t p a esize ecks hashes dev ch size' cks' b d,
+  update_entry_for_path (table_hashlib tb) w path (EFile t p a esize ecks) (Some hashes) dev None = Ok (ch, size', cks') ->
+  verify_path (table_hashlib tb) w path (Some (EFile t p a size' cks')) dev None = Ok (b, d) ->
+  b = true /\ d = [].
+Proof. intros tb. exact (refresh_then_verify (table_hashlib tb) (table_upd_app tb) (table_upd_nil tb)). Qed.
+Print Assumptions C03_refresh_then_verify_exec.
+
+(* ... and is a fixed point of a further refresh *)
+Theorem C03_refresh_fixed_point : forall (L : hashlib) w path t p a esize ecks hashes dev ch size' cks',
+  update_entry_for_path L w path (EFile t p a esize ecks) (Some hashes) dev None = Ok (ch, size', cks') ->
+  update_entry_for_path L w path (EFile t p a size' cks') (Some hashes) dev None = Ok (false, size', cks').
+Proof. exact refresh_idempotent. Qed.
+Print Assumptions C03_refresh_fixed_point.
